@@ -415,6 +415,9 @@ def stage_fuzz(ctx, rng, gverif, klist):
             nsetup = len(setup_for(cfg)) + len(setup_db)
             results = r.get("results") or []
             dead_at = None      # index of the test statement at which the case ended abnormally
+            # what the probes answered after the previous statement of THIS session (after the setup: 1, 3 rows, the batch size);
+            # an earlier successful statement may legitimately have changed it (insert into probe_t, set batch_size, drop ...)
+            prev_probe = [[["I1"]], [["I3"]], [["I%d" % cfg_of(chunk)[0]]]]
             if ("timeout" in r or "abort" in r) and not results and len(chunk) > 1:
                 # the watchdog / an abort ended the whole case without per-statement results: every statement alone
                 queue += [[t] for t in chunk]
@@ -484,12 +487,13 @@ def stage_fuzz(ctx, rng, gverif, klist):
                     break
                 if cls == "error":
                     touches = re.search(r"probe_t", sql, re.I) and re.search(r"insert|drop|delete|update|truncate", sql, re.I)
-                    want = [[["I1"]], [["I3"]], None]
+                    want = prev_probe
                     got = [y.get("rows") if y.get("ok") else ("error: " + (y.get("err") or "")) for y in pr]
-                    okp = got[0] == want[0] and (touches or got[1] == want[1]) and isinstance(got[2], list) and len(got[2]) == 1 and json.dumps(got[2]) == json.dumps([["I%d" % cfg[0]]])
+                    okp = got[0] == want[0] and (touches or got[1] == want[1]) and got[2] == want[2]
                     if not okp:
                         viol.append({"what": "state changed by a FAILED statement (model/Session.v: visible unchanged)",
-                                     "replay": dict(replay, error=x.get("err"), probes_got=got, probes_want=["[[I1]]", "[[I3]]", "batch_size %d" % cfg[0]]), "no_input": False})
+                                     "replay": dict(replay, error=x.get("err"), probes_got=got, probes_want_as_after_previous_statement=want,
+                                                    earlier_statements_of_session=[t[1][:200] for t in chunk[:ti]]), "no_input": False})
                     if label == "runtime-kth-ctas" and p + 4 < len(results):
                         y = results[p + 4]
                         if y.get("ok"):
@@ -501,6 +505,7 @@ def stage_fuzz(ctx, rng, gverif, klist):
                             else:
                                 viol.append({"what": "catalog changed by a FAILED statement: CREATE TABLE AS failed at run time but the table exists",
                                              "replay": dict(replay, error=x.get("err"), after=y), "no_input": False})
+                prev_probe = [y.get("rows") if y.get("ok") else ("error: " + (y.get("err") or "")) for y in pr]
             if dead_at is not None and dead_at + 1 < len(chunk):
                 queue.append(chunk[dead_at + 1:])
     return {"viol": viol, "known": known, "stats": stats, "tests": len(tests), "cases": ncase, "rounds": rounds,
